@@ -39,6 +39,9 @@ def _sh(src):
 
 SH_READ = _sh("x = self._init_once_cache[tag]")
 SH_SETDEFAULT = _sh("x = self._init_once_cache.setdefault(tag, (False, allocate_lock()))")
+SH_NEWX = _sh("x = (False, allocate_lock())")
+SH_SETDEFAULTX_DISCARD = _sh("self._init_once_cache.setdefault(tag, x)")
+SH_SETDEFAULTX_ASSIGN = _sh("x = self._init_once_cache.setdefault(tag, x)")
 SH_CALLF = _sh("result = func()")
 SH_STORE = _sh("self._init_once_cache[tag] = (True, result)")
 SH_TEST = py2coq.shape(ast.parse("x[0]").body[0].value)
@@ -99,6 +102,14 @@ def flatten(fn):
             if handler is not None:
                 raise U("setdefault inside a try body")
             i = emit("ISetDefault", text(st))
+            return [(i, "k")]
+        if sh == SH_NEWX:
+            i = emit("INewX", text(st))
+            return [(i, "k")]
+        if sh in (SH_SETDEFAULTX_DISCARD, SH_SETDEFAULTX_ASSIGN):
+            if handler is not None:
+                raise U("setdefault inside a try body")
+            i = emit("ISetDefaultX", text(st), a=("true" if sh == SH_SETDEFAULTX_ASSIGN else "false"))
             return [(i, "k")]
         if sh == SH_CALLF:
             if handler is not None:
@@ -174,8 +185,10 @@ def flatten(fn):
             prog.append((k, s["yes"], s["no"]))
         elif k == "ICallF":
             prog.append((k, s["ok"], s["ex"]))
-        elif k in ("ISetDefault", "IAcquire", "IStore", "IRelease"):
+        elif k in ("ISetDefault", "INewX", "IAcquire", "IStore", "IRelease"):
             prog.append((k, s["k"]))
+        elif k == "ISetDefaultX":
+            prog.append((k, s["a"] == "true", s["k"]))
         elif k == "IRaise":
             prog.append((k, s["e"]))
         else:
@@ -188,7 +201,8 @@ def gen_text(prog, srcs, origin):
              "From Coq Require Import List.", "Import ListNotations.", "From Cffi Require Import C26.Model.", "",
              "Definition py_prog : prog := ["]
     for i, (ins, src) in enumerate(zip(prog, srcs)):
-        args = " ".join(str(a) for a in ins[1:])
+        args = " ".join({True: "true", False: "false"}.get(a, str(a)) if isinstance(a, bool) else str(a)
+                        for a in ins[1:])
         lines.append("  (* %2d *) %s%s   (* %s *)" % (i, (ins[0] + " " + args).strip(),
                                                      ";" if i + 1 < len(prog) else "", src.replace("*)", "* )")))
     lines.append("].")
@@ -273,54 +287,7 @@ def generate(ctx):
 
 # ------------------------------------------------------------------ evaluation
 
-def predicates(res, n):
-    """the property, decided on the implementation's own events (independent of the model)"""
-    bad = []
-    inside = None
-    completed = []          # (t, r)
-    raised_f = set()
-    started_after = False
-    cache_at_raise = {}
-    for t, what, extra, peek in res["events"]:
-        if what == "fenter":
-            if inside is not None:
-                bad.append("f of thread %d started while f of thread %d was still running" % (t, inside))
-            if completed:
-                bad.append("f of thread %d started after f of thread %d had completed normally" % (t, completed[0][0]))
-            inside = t
-        elif what == "fret":
-            completed.append((t, extra))
-            inside = None
-        elif what == "fraise":
-            raised_f.add(t)
-            inside = None
-            cache_at_raise[t] = peek
-        elif what == "op" and t in cache_at_raise and extra == W.K_STORE:
-            bad.append("thread %d stored into the cache after its own f raised" % t)
-    if len(completed) > 1:
-        bad.append("%d calls of f completed normally" % len(completed))
-    for t in range(n):
-        o = res["outcomes"][t]
-        if o is None:
-            continue
-        if o[0] == 1:
-            if not completed or o[1] != completed[0][1]:
-                bad.append("thread %d returned %r, the completed f returned %r" % (t, o[1], completed[:1]))
-            if t in raised_f:
-                bad.append("thread %d returned normally although its own f raised" % t)
-        elif o[0] == 3:
-            if t not in raised_f:
-                bad.append("thread %d raised f's exception without having run f" % t)
-        else:
-            bad.append("thread %d ended with %r" % (t, o))
-    if res["probe"] is not None and res["probe"] and res["probe"][0] == 2 and completed \
-            and res["probe"][1] != completed[0][1]:
-        bad.append("a later call returned %r, the completed f returned %r" % (res["probe"][1], completed[0][1]))
-    if res["probe"] is not None and res["probe"] and res["probe"][0] == 2 and not completed:
-        bad.append("a later call found a cached result although no f completed")
-    if res["probe"] is not None and res["probe"] and res["probe"][0] == 1 and completed:
-        bad.append("a later call ran f again although f had completed normally (nothing cached)")
-    return bad
+predicates = W.predicates
 
 
 def impl_observation(case, res):
@@ -408,6 +375,18 @@ def run_workers(ctx, impl, prog, cases, timeout):
 
 
 def evaluate(ctx, cases):
+    if ctx.replay_mode and cases and cases[0].get("explore"):
+        c = cases[0]
+        r = run_workers(ctx, "py", py_prog()["prog"], [dict(impl="py", n=c["n"], explore=True, prefix=c["prefix"])], 60)[0]
+        ctx.count()
+        bad = predicates(r, c["n"])
+        if r["status"] in ("timeout", "stuck"):
+            bad.append("no call can make progress (%s): %s" % (r["status"], r["detail"]))
+        if bad:
+            ctx.violation(dict(c, observed=dict(outcomes=r["outcomes"], events=[e[:3] for e in r["events"]][:80])),
+                          "init_once (Python api.py implementation, %d threads, schedule %r): %s"
+                          % (c["n"], r["sched"], "; ".join(bad[:3])))
+        return
     if ctx.replay_mode:
         # a stored schedule belongs to the program of the tree it was found on: follow it as far as the current
         # model allows, then continue with free choices (so that it passes on a repaired tree)
@@ -506,6 +485,31 @@ def evaluate(ctx, cases):
             ctx.sample(dict(impl=impl, n=c["n"], sched=r["sched"], observation=obs))
 
 
+def explore(ctx, n, limit, rng=None):
+    """Model-free search on the real Python implementation: enumerate the implementation's OWN schedule tree
+    (every parked thread is a choice, both outcomes of every f) and evaluate the property on each complete run.
+    This is what finds the concrete failing schedule when the implementation no longer follows the model.
+    The search runs inside worker processes (depth-first from disjoint first choices)."""
+    g = py_prog()
+    s = ctx.scratch()
+    seed = rng.randrange(1 << 30) if rng is not None else None
+    r, p = s.run_worker("c26_worker.py", dict(impl="py", prog=g["prog"], cases=[], timeout=30,
+                                              explore_tree=dict(n=n, limit=limit, seed=seed)), timeout=3600)
+    if r is None:
+        raise RuntimeError("c26 explore worker failed: " + (p.stderr[-2000:] or p.stdout[-500:]))
+    t = r["tree"]
+    ctx.count(t["runs"])
+    ctx.hist("explore_threads_%d_runs" % n, t["runs"])
+    for key in t["nontrivial"]:
+        ctx.nontrivial(("explore", n, key))
+    for b in t["bad"]:
+        ctx.violation(dict(impl="py", n=n, explore=True, prefix=b["sched"],
+                           observed=dict(outcomes=b["outcomes"], events=[e[:3] for e in b["events"]][:80])),
+                      "init_once (Python api.py implementation, %d threads, schedule %r): %s"
+                      % (n, b["sched"], "; ".join(b["bad"][:3])))
+    ctx.extra.setdefault("explored_impl_schedules", {})[str(n)] = dict(runs=t["runs"], exhausted=t["exhausted"])
+
+
 def check_counts(ctx, cases):
     """the exhaustive claim: the number of distinct maximal schedules replayed equals the number the Coq
     model has (count_max), per thread count"""
@@ -553,6 +557,11 @@ def run(ctx):
     first = [c for c in cases if c["n"] <= 2 or c["impl"] == "c"]
     rest = [c for c in cases if not (c["n"] <= 2 or c["impl"] == "c")]
     evaluate(ctx, first)
+    if not ctx.violations:
+        # the implementation's own schedule tree, without the model: all of it for 2 threads, a sample for 3
+        explore(ctx, 2, 5000)
+    if not ctx.violations:
+        explore(ctx, 3, ctx.n(1500, 40000), rng=ctx.rng)
     if not ctx.violations:
         evaluate(ctx, rest)
         check_counts(ctx, cases)
